@@ -25,6 +25,14 @@ from pycoin.symbols.xtn import network as XTN
 
 from gen import subproc
 
+# every network the library ships is loaded into this process before anything is checked (ku and any wallet that lists the
+# supported coins do the same): what one coin's module sets up must not change what another coin's check() accepts
+import contextlib as _contextlib
+import io as _io
+from pycoin.networks.registry import network_codes as _codes, network_for_netcode as _net_for
+with _contextlib.redirect_stdout(_io.StringIO()):
+    ALL_NETWORKS_LOADED = sorted(c for c in _codes() if _net_for(c) is not None)
+
 PROPERTY = "C20"
 COIN = 10**8
 # per-coin MAX_MONEY as the property states it: 21,000,000 coins; "Groestlcoin differs" (105,000,000 GRS)
@@ -46,7 +54,7 @@ ASSUMPTIONS = [
     "transactions whose verdict depends on whether a zero prev-hash with index != 2^32-1 counts as null/coinbase are don't-care",
     "stripped size <= 1,000,000 < total size is don't-care (the property demands acceptance only up to a total of 1,000,000)",
 ]
-CONFIGURATIONS = ["BTC, LTC, BCH, BTG Tx classes via pycoin.symbols.*; GRS Tx class imported directly (pycoin.coins.groestlcoin.Tx; "
+CONFIGURATIONS = ["all shipped network modules imported first", "BTC, LTC, BCH, BTG Tx classes via pycoin.symbols.*; GRS Tx class imported directly (pycoin.coins.groestlcoin.Tx; "
                   "groestlcoin_hash C module absent, not needed by check())"]
 UNEXPLORED = ["transactions with more than ~260 inputs (pycoin's duplicate scan is quadratic)",
               "output values outside the 64-bit range other than small negative ones"]
